@@ -305,9 +305,23 @@ func GenCase16(r *lib.RNG) Case16 {
 			}
 			feat["mixed-case-identifier"] = true
 		}
-		if r.Chance(1, 10) {
+		if r.Chance(1, 8) {
 			// a reference without a matching table column
-			switch r.Intn(3) {
+			// a block field name the integration does not use yet (valid for every shape)
+			unused := func() string {
+				for _, n := range []string{"tx_hash", "tx_to", "tx_signer", "tx_nonce", "block_time"} {
+					used := false
+					for _, b := range ig.Block {
+						used = used || b.Name == n
+					}
+					if !used {
+						return n
+					}
+				}
+				return "tx_type"
+			}
+			arg := []string{"0x00000000000000000000000000000000000000aa"}
+			switch r.Intn(7) {
 			case 0:
 				if len(ig.Event.Inputs) > 0 {
 					ig.Event.Inputs[0].Column = "nope"
@@ -321,7 +335,33 @@ func GenCase16(r *lib.RNG) Case16 {
 					ig.Notification.Columns = []string{"nope"}
 				}
 			case 2:
-				ig.Notification.Columns = append(ig.Notification.Columns, "nope")
+				ig.Notification.Columns = append(ig.Notification.Columns, []string{"nope", ""}[r.Intn(2)])
+			case 3:
+				// a block field WITHOUT column that only carries a filter (operator + argument)
+				ig.Block = append(ig.Block, dig.BlockData{Name: unused(), Filter: dig.Filter{Op: "contains", Arg: arg}})
+				feat["empty-block-column"] = true
+			case 4:
+				// ... with a filter_ref (to a column this integration declares) instead of an argument
+				bd := dig.BlockData{Name: unused(), Filter: dig.Filter{Op: "contains", Arg: arg}}
+				if len(cols) > 0 {
+					bd.Filter = dig.Filter{Op: "contains", Ref: dig.Ref{Integration: ig.Name, Column: cols[0].Name}}
+				}
+				ig.Block = append(ig.Block, bd)
+				feat["empty-block-column"] = true
+			case 5:
+				// ... without any filter
+				ig.Block = append(ig.Block, dig.BlockData{Name: unused()})
+				feat["empty-block-column"] = true
+			case 6:
+				// an existing block field loses its column and gets a filter operator only
+				if len(ig.Block) > 0 {
+					j := r.Intn(len(ig.Block))
+					ig.Block[j].Column = ""
+					ig.Block[j].Filter = dig.Filter{Op: []string{"contains", "!contains", "eq"}[r.Intn(3)]}
+				} else {
+					ig.Block = append(ig.Block, dig.BlockData{Name: unused(), Filter: dig.Filter{Op: "ne", Arg: arg}})
+				}
+				feat["empty-block-column"] = true
 			}
 			feat["dangling-reference"] = true
 		}
